@@ -4,6 +4,7 @@ package vsched
 
 import (
 	"fmt"
+	"reflect"
 	"runtime/debug"
 	"sort"
 	"strings"
@@ -274,4 +275,45 @@ func ScheduleString(x *Execution) string {
 		fmt.Fprintf(&b, "%d", p.Enabled[p.Chosen])
 	}
 	return b.String()
+}
+
+// --- cold start of package-level state -------------------------------------------------------------------
+// The instrumenter emits, per instrumented package-level variable, a snapshot of its initial value and a reset
+// function that restores it; ResetState runs them before every explored execution so that lazily built
+// process-wide state (a validator built on first use, a cache filled by the first call) is cold each time, whatever
+// mechanism guards it (sync.Once, a mutex and a nil check, an atomic flag).
+
+var resetFns []func()
+
+// OnReset registers a restore function (called from generated init functions).
+func OnReset(f func()) { resetFns = append(resetFns, f) }
+
+// ResetState restores every registered package-level variable to its initial value.
+func ResetState() {
+	for _, f := range resetFns {
+		f()
+	}
+}
+
+// Snapshot returns a copy of v that does not share a map or slice with it (one level deep); used both to remember the
+// initial value and to hand out a fresh copy on every reset.
+func Snapshot[T any](v T) T {
+	rv := reflect.ValueOf(&v).Elem()
+	switch rv.Kind() {
+	case reflect.Map:
+		if !rv.IsNil() {
+			c := reflect.MakeMapWithSize(rv.Type(), rv.Len())
+			for it := rv.MapRange(); it.Next(); {
+				c.SetMapIndex(it.Key(), it.Value())
+			}
+			rv.Set(c)
+		}
+	case reflect.Slice:
+		if !rv.IsNil() {
+			c := reflect.MakeSlice(rv.Type(), rv.Len(), rv.Len())
+			reflect.Copy(c, rv)
+			rv.Set(c)
+		}
+	}
+	return v
 }
